@@ -49,6 +49,9 @@ func checkC06(c *Ctx) {
 			return
 		}
 		src := "{namespace v}\n" + doc + "{template .m}\n" + body + useAll + "\n{/template}\n"
+		if strings.Contains(body, ".m2") {
+			src += "/** @param? p\n @param? b */\n{template .m2}\n({$p ?: ''}{$b ?: ''})\n{/template}\n"
+		}
 		ij := exprIJ
 		if noIJ {
 			ij = nil
@@ -129,6 +132,20 @@ func checkC06(c *Ctx) {
 				render(fmt.Sprintf("{length(range(%d, %d, %d))}", a, b, s), false, "range step")
 			}
 		}
+	}
+	// (c2) range with float, huge and tiny arguments (a float loop counter that stops advancing never ends)
+	for _, a := range []string{"1.0", "0.5", "10000000000000000.0", "9007199254740993", "1e300", "-1e300"} {
+		for _, b := range []string{"2.0", "10000000000000004.0", "9007199254740996", "1e300", "3"} {
+			for _, s := range []string{"", ", 1", ", 0.5", ", 1e-17", ", 1e-320", ", -0.5"} {
+				render("{for $k in range("+a+", "+b+s+")}{$k}{/for}", false, "range float")
+				render("{length(range("+a+", "+b+s+"))}", false, "range float")
+			}
+		}
+	}
+	// (c3) evaluation errors inside quoted attribute expressions (their nodes carry positions inside the quotes)
+	for _, b := range []string{"{call .m2 data=\"$und.b.c\"/}", "{call .m2}{param key=\"p\" value=\"$und.b\"/}{/call}", "{css $und.b, cls}", "{call .m2 data=\"$n.x.y\"/}", "{call .m2 data=\"1 < 'a'\"/}",
+		strings.Repeat("filler text {$s}\n", 6) + "{call .m2 data=\"$und.b.c\"/}"} {
+		render(b, false, "quoted attribute")
 	}
 	// (d) every directive x arity x argument classes
 	dirs := []string{"insertWordBreaks", "changeNewlineToBr", "truncate", "id", "noAutoescape", "escapeHtml", "escapeUri", "escapeJsString", "bidiSpanWrap", "bidiUnicodeWrap", "json", "nosuchdir"}
